@@ -46,7 +46,7 @@ type c04Case struct {
 	mut   string // mutation name
 }
 
-var c04Denoms = []uint64{1, 2, 4, 8, 1 << 30, 1 << 59}
+var c04Denoms = []uint64{1, 2, 4, 8, 16, 1 << 10, 1 << 20, 1 << 30, 1 << 31, 1 << 32, 1 << 40, 1 << 50, 1 << 58, 1 << 59}
 
 func c04Cases(quick bool) []c04Case {
 	var cs []c04Case
